@@ -442,6 +442,26 @@ func (vt *VTimer) Reset(d int64) bool {
 	return was
 }
 
+// StopPendingTimers stops every virtual timer that has not fired yet: the process that owned them is gone
+// (a harness that models a host going down calls this once the old process's goroutines have been told to end).
+// It returns how many were stopped.
+//
+//go:norace
+func StopPendingTimers() int {
+	x := cur
+	n := 0
+	if x == nil {
+		return 0
+	}
+	for i := 0; i < x.ntimers; i++ {
+		if x.timers[i].State == 0 {
+			x.timers[i].State = 2
+			n++
+		}
+	}
+	return n
+}
+
 // NoteClose counts channel closes per scheduler step.
 //
 //go:norace
